@@ -151,6 +151,8 @@ def run(ctx):
                     for c in n.children:
                         if c.parent is not n:
                             what = "a parent link below the copy's root does not point inside the copy"
+                if what is None and cp.parent is not root.parent:
+                    what = "the copy's own parent link is not the one of the node copy() was called on (model: C12_root_parent_kept)"
                 objs_o = {id(x) for n in walk(root) for x in (n, n.attributes, n.extras, n.nsmap, n.children)}
                 objs_c = [id(x) for n in walk(cp) for x in (n, n.attributes, n.extras, n.nsmap, n.children)]
                 if set(objs_c) & objs_o:
